@@ -196,13 +196,23 @@ func loadProgram(cfg *runConfig) (*loaded, error) {
 	if cfg.Batch {
 		return loadBatch(cfg, t0)
 	}
-	pcfg0 := &packages.Config{Mode: packages.NeedName | packages.NeedFiles, Dir: cfg.Repo, Env: append(os.Environ(), "GOFLAGS=-mod=mod", "GOPROXY=off", "GOSUMDB=off")}
-	meta, err := packages.Load(pcfg0, cfg.Pkg)
-	if err != nil || len(meta) == 0 || len(meta[0].GoFiles) == 0 {
-		return nil, fmt.Errorf("cannot locate package %s: %v", cfg.Pkg, err)
+	pkgDirOf := func(path string) (string, error) {
+		pcfg0 := &packages.Config{Mode: packages.NeedName | packages.NeedFiles, Dir: cfg.Repo, Env: append(os.Environ(), "GOFLAGS=-mod=mod", "GOPROXY=off", "GOSUMDB=off")}
+		meta, err := packages.Load(pcfg0, path)
+		if err != nil || len(meta) == 0 || len(meta[0].GoFiles) == 0 {
+			return "", fmt.Errorf("cannot locate package %s: %v", path, err)
+		}
+		return filepath.Dir(meta[0].GoFiles[0]), nil
 	}
-	pkgDir := filepath.Dir(meta[0].GoFiles[0])
 	for _, d := range cfg.OverlayDirs {
+		target := cfg.Pkg
+		if i := strings.Index(d, "=>"); i >= 0 {
+			d, target = d[:i], d[i+2:]
+		}
+		pkgDir, err := pkgDirOf(target)
+		if err != nil {
+			return nil, err
+		}
 		ents, err := os.ReadDir(d)
 		if err != nil {
 			return nil, err
